@@ -4,6 +4,7 @@ EXTENDS MetaCatalog, Json
 \* that reached the depth bound.
 \* constants with negative numbers cannot be written in a cfg file
 MinTc == -191          \* models.MinNanoTime: inside the hour [-192, -188)
+WrapTc == 999          \* stands for the wrapped-around instant
 MaxTc == 189           \* models.MaxNanoTime: inside the hour [188, 192)
 TimesExh == {-1, 0, 5, 8}
 TimesExh2 == {-1, 0, 4, 9, 189}
@@ -20,10 +21,22 @@ Export == (Len(hist) = Depth) => PrintT(<<"TRACE", ToJson(hist)>>)
 \* of that type; otherwise any command of any type (mostly invalid arguments).
 \* (parameterised by the state so that TLC does not cache the choices as constants)
 Effective(c, S) == {x \in S : \E r \in {Ap(c, x, Dev)} : r.r = "ok" /\ r.c # c}
+\* the as-implemented lineage panics on this command (the real process would stop): offered rarely
+Panicky(x) == Track /\ Ap(catI, x, IDev).r = "panic"
+OpBag == <<"CreateShardGroup", "CreateShardGroup", "CreateShardGroup", "CreateShardGroup", "CreateShardGroup", "CreateShardGroup",
+           "CreateMeasurement", "CreateMeasurement", "CreateMeasurement", "UpdateRetentionPolicy", "UpdateRetentionPolicy",
+           "UpdateRetentionPolicy", "DeleteShardGroup", "DeleteShardGroup", "DeleteShardGroup", "PruneGroups", "PruneGroups",
+           "PruneGroups", "CreateRetentionPolicy", "CreateRetentionPolicy", "CreateDatabase", "CreateDatabase", "CreateDbPtView",
+           "CreateDbPtView", "CreateDataNode", "CreateSqlNode", "UpdateReplication", "MarkDatabaseDelete", "DropDatabase",
+           "MarkRetentionPolicyDelete", "DropRetentionPolicy", "SetDefaultRetentionPolicy", "MarkMeasurementDelete",
+           "MarkMeasurementDelete", "DropMeasurement", "CreateUser", "DropUser", "SetPrivilege", "SetPrivilege">>
 SimPick(c, E, j) ==
-  IF E # {} /\ RandomElement(1..5) > 1
-  THEN LET op == RandomElement({x.op : x \in E}) IN RandomElement({x \in E : x.op = op})
+  IF E # {} /\ RandomElement(1..6) > 1
+  THEN LET W  == SelectSeq(OpBag, LAMBDA o : \E x \in E : x.op = o)
+           op == IF W = <<>> THEN RandomElement({x.op : x \in E}) ELSE W[RandomElement(1..Len(W))]
+       IN RandomElement({x \in E : x.op = op})
   ELSE RandomElement(CmdsOf(RandomElement(Ops \ {"Snapshot", "UpdateReplication"}), c))
-SimCmds == UNION {{SimPick(cat, E, j) : j \in 1..3} : E \in {Effective(cat, AllCmds(cat))}}
+SimCmds == UNION {{y \in {SimPick(cat, E, j) : j \in 1..3} : ~Panicky(y) \/ RandomElement(1..8) = 1} :
+                  E \in {Effective(cat, AllCmds(cat))}}
 SimSnapGate == RandomElement(1..6) = 1 /\ (cat.maxMst > 0 \/ RandomElement(1..4) = 1)
 =============================================================================
